@@ -1655,5 +1655,10 @@ def make_fraction_shaping(r, g, flags, dirs=("l", "r", "l", "r", "t", "b"), leve
 
 def fraction_known_class(s, kind="break", o=None):
     if s.g.get("synthetic"):
-        return "reversed" if shaped_reversed(s) else None
+        # the recorded "reversed" class needs marks / selectors / ligatures, or an RTL-native script shaped LTR (digit-only
+        # pieces are then not reversed); a synthetic fraction font has single substitutions only, so on its Latin variant a
+        # reversed buffer is judged like any other
+        if shaped_reversed(s) and (s.dir == "b" or s.script != "Latn"):
+            return "reversed"
+        return None
     return known_class(s, kind, o)
